@@ -121,7 +121,7 @@ SPEC("pane.converters", "PatternConverter.collect_errors",
 # TaggedUnionConverter (C12): the variant is chosen by the tag value alone
 def wf_Tagged(self):
     return ((self.external is False or self.external is True or
-             (isinstance(self.external, tuple) and slen(self.external) == 2
+             (isinstance(self.external, Sequence) and not isinstance(self.external, bool) and slen(self.external) == 2
               and isinstance(sat(self.external, 0), str) and isinstance(sat(self.external, 1), str)
               and sat(self.external, 0) != sat(self.external, 1)))
             and isinstance(self.tag, str)
